@@ -132,6 +132,13 @@ func genPayload(it WireItem) []byte {
 			{0x91, 'h', 'v', 'c', '1'}, {0xa1, 'h', 'v', 'c', '1'}, {0x92, 'h', 'v', 'c', '1'}, {0x94, 'h', 'v', 'c', '1'}, {0x95, 'h', 'v', 'c', '1'},
 			{0x91, 'a', 'v', '0', '1'}, {0x90, 'a', 'v', 'c', '1'}, {0x91, 'h', 'v', 'c'}}[it.Shape%24]
 		return append(append([]byte{}, hdr...), randBytes(it.Seed, n)...)
+	case "ex_video_trunc":
+		// every prefix of every enhanced-RTMP video header: IsExHeader | frame type | packet type, FourCC, composition time,
+		// a little body - cut after n bytes (1..12)
+		full := []byte{byte(0x80 | (1+it.Shape%2)<<4 | it.Shape/2%6)}
+		full = append(full, [][]byte{[]byte("hvc1"), []byte("hvc1"), []byte("av01"), []byte("avc1"), []byte("vp09")}[it.Shape/12%5]...)
+		full = append(full, 0, 0, 0, 0, 0, 0, 1, 0x26)
+		return full[:1+n%12]
 	case "audio_hdr":
 		hdr := [][]byte{{0xaf}, {0xaf, 0}, {0xaf, 0, 0x12}, {0xaf, 0, 0xff, 0xff}, {0xaf, 1}, {0xaf, 2}, {0x7f}, {0x8f, 1}, {0xdf, 0}, {0x2f, 1}, {0xaf, 0, 0, 0}, {0x0f}}[it.Shape%12]
 		return append(append([]byte{}, hdr...), randBytes(it.Seed, n)...)
@@ -705,7 +712,7 @@ func genWireItems(r *sim.Rng, n int, asPublisher bool) []WireItem {
 				}
 			}
 		case 4: // media / data before or after the role is fixed
-			gen := []string{"video_hdr", "audio_hdr", "valid_video", "valid_audio", "seqhdr_trunc", "hevc_seqhdr_trunc", "nal_zero_len"}[r.Intn(7)]
+			gen := []string{"video_hdr", "audio_hdr", "valid_video", "valid_audio", "seqhdr_trunc", "hevc_seqhdr_trunc", "nal_zero_len", "ex_video_trunc"}[r.Intn(8)]
 			t := 9
 			if gen == "audio_hdr" || gen == "valid_audio" {
 				t = 8
